@@ -8,6 +8,7 @@
   types and on this model and every answer is compared.
 -/
 import Z80.Base
+import Z80.GoStore
 
 namespace Z80.Spec.MemIO
 open Z80
@@ -37,6 +38,10 @@ def mapPut (m : Assoc) (a : U16) : List U8 → Assoc
 /-- same set of keys with the same values (what reflect.DeepEqual compares for two non-nil maps) -/
 def mapEqual (m₁ m₂ : Assoc) : Bool :=
   (m₁.all fun kv => assocGet? m₂ kv.1 == assocGet? m₁ kv.1) && (m₂.all fun kv => assocGet? m₁ kv.1 == assocGet? m₂ kv.1)
+
+/-- the contents Clone builds: `cl := MapMemory{}; for k, v := range mm { cl[k] = v }` — the live entries of the source (each key
+    once), inserted one after the other (the order range visits them in does not matter: Props/C15Gen.clone_any_order) -/
+def cloneOf (m : Assoc) : Assoc := (GoStore.assocLive m).reverse
 
 /-! ## heap of objects, variables holding handles -/
 
@@ -120,7 +125,7 @@ def step (w : World) : Op → World × Out
     | _ => (w, .bad)
   | .clone r src =>
     match w.var src with
-    | some (.mm (some i)) => (match w.map? i with | some m => let (w, j) := w.alloc (.map m); (w.bind r (.mm (some j)), .ok) | none => (w, .bad))
+    | some (.mm (some i)) => (match w.map? i with | some m => let (w, j) := w.alloc (.map (cloneOf m)); (w.bind r (.mm (some j)), .ok) | none => (w, .bad))
     | some (.mm none) => let (w, j) := w.alloc (.map []); (w.bind r (.mm (some j)), .ok)   -- Clone of nil is an empty, initialised map
     | _ => (w, .bad)
   | .clear r =>
